@@ -130,11 +130,20 @@ func (dp *DPoVP) MineBlock(txProcessTimeout int64) (*types.Block, error) {
 	txs := dp.txPool.GetTxs(header.Time, params.MaxTxsForMiner)
 	// pack only what verifyTxs accepts at this block time: GetTxs drops expired txs, but not the ones which expire too far ahead yet
 	packable := make(types.Transactions, 0, len(txs))
+	replayedTxs := make(types.Transactions, 0)
 	for _, tx := range txs {
-		if tx.VerifyTxBody(dp.processor.ChainID, uint64(header.Time), true) == nil {
-			packable = append(packable, tx)
+		if tx.VerifyTxBody(dp.processor.ChainID, uint64(header.Time), true) != nil {
+			continue
 		}
+		// the pool is filled without chainLock (the guard is asked first, the pool is written later), so a tx may have been
+		// packed on this branch in between. Never pack it again: every other node rejects such a block (verifyTxs)
+		if dp.txGuard.ExistTx(parentHeader.Hash(), tx) {
+			replayedTxs = append(replayedTxs, tx)
+			continue
+		}
+		packable = append(packable, tx)
 	}
+	dp.txPool.DelTxs(replayedTxs)
 	block, invalidTxs, err := dp.assembler.MineBlock(header, packable, txProcessTimeout)
 	if err != nil {
 		if err == deputynode.ErrNoStableTerm {
